@@ -384,10 +384,13 @@ class Collector:
         self._reader.stop()
 
     def _finalize(self):
-        _debug(f'{_thread_name()}: Joining {self._reader}')
-        self._reader.join()
-        _debug(f'{_thread_name()}: Joining {self._hashers}')
-        self._hashers.join()
+        try:
+            _debug(f'{_thread_name()}: Joining {self._reader}')
+            self._reader.join()
+        finally:
+            # Reader.join() raises exceptions from the reader thread
+            _debug(f'{_thread_name()}: Joining {self._hashers}')
+            self._hashers.join()
         _debug(f'{_thread_name()}: hash_queue has {self._hashers.hash_queue.qsize()} items left')
 
     @property
